@@ -1068,9 +1068,10 @@ static void x_once(const plan_t *p)
             if (cstl_hash_size(&tb[t]) != (size_t)m->nlive) VIOL("churn", "after %u insert/erase cycles of a transient element the table reports size %zu, reference has %d", n, cstl_hash_size(&tb[t]), m->nlive);
             PROBE(n > 60000 ? "churn_2^16" : "churn_2^8");
             EVT("churn", t, n, key);
-            m->keyed = m->budget;       /* far more keyed operations than buckets: a pending rehash must be finished by now */
+            /* 2n more keyed operations: once there have been as many as there were buckets, a pending rehash must be finished */
+            m->keyed = m->keyed + 2 * (uint64_t)n > m->budget ? m->budget : m->keyed + 2 * (uint64_t)n;
             c19_refresh(t);
-            if (!m->builtin && !m->settled) VIOLP("C19", "completion_bound", "rehash still pending after %u keyed operations", 2 * n);
+            if (m->keyed >= m->budget && !m->builtin && !m->settled) VIOLP("C19", "completion_bound", "rehash still pending after %u more keyed operations (budget %llu = buckets in force at the resize)", 2 * n, (unsigned long long)m->budget);
             break;
         }
         case O_SCAN: {
